@@ -504,13 +504,17 @@ class Gen:
       * prod(M1,M2): no operand whose optimised head is a scalar multiple; prod(M,v): no repeat;
       * plain `*=`/`/=` with an expression on a vector *proxy* target is F9."""
 
-    def __init__(self, rng, integer_div=True, max_depth=5):
+    def __init__(self, rng, integer_div=True, max_depth=5, big=False):
         self.rng = rng; self.integer_div = integer_div; self.max_depth = max_depth
         self.decls = []; self.orient = {}
         sizes = [0, 1, 2, 3, 3, 4, 5, rng.randint(2, 5)]
+        shapes = [(0, 3), (1, 1), (2, 3), (3, 2), (3, 3), (4, 4), (rng.randint(2, 5), rng.randint(1, 5)), (5, 2), (rng.randint(1, 4), 0), (2, 2)]
+        if big:
+            # shapes around the 16x16 blocking of the dense assignment kernels (partial last blocks in both directions)
+            sizes = [17, 18, 33]
+            shapes = [(17, 17), (17, 18), (18, 17), (18, 18), (33, 17), (17, 33)]
         rng.shuffle(sizes)
         for x, n in enumerate(sizes): self.decls.append(("v", x, n))
-        shapes = [(0, 3), (1, 1), (2, 3), (3, 2), (3, 3), (4, 4), (rng.randint(2, 5), rng.randint(1, 5)), (5, 2), (rng.randint(1, 4), 0), (2, 2)]
         rng.shuffle(shapes)
         for A, (r, c) in enumerate(shapes):
             self.decls.append(("m", A, r, c)); self.orient[A] = rng.random() < 0.5
@@ -858,12 +862,15 @@ class Gen:
         for d in self.decls:
             if d[0] == "v": s.v[d[1]] = [0] * d[2]
             else: s.m[d[1]] = [[0] * d[3] for _ in range(d[2])]
+        sparse_init = sum(d[2] * d[3] for d in self.decls if d[0] == "m") > 600     # big shapes: set ~35% of the cells, rest stays 0
         for d in self.decls:
             if d[0] == "v":
                 for i in range(d[2]): stmts.append(("SSetV", d[1], i, rng.randint(-4, 4)))
             else:
                 for i in range(d[2]):
-                    for j in range(d[3]): stmts.append(("SSetM", d[1], i, j, rng.randint(-4, 4)))
+                    for j in range(d[3]):
+                        if sparse_init and rng.random() > 0.35: continue
+                        stmts.append(("SSetM", d[1], i, j, rng.randint(-4, 4)))
         for st in stmts: s, _ = exec_stmt(s, st)
         ninit = len(stmts); tries = 0; rejected = 0
         while len(stmts) - ninit < nstmts and tries < 40 * nstmts:
@@ -880,7 +887,8 @@ class Gen:
                 try: st = self.statement()
                 except RecursionError: st = None
             if st is None: continue
-            if has_mixed_bin(st, self.orient): self.count("rejected(mixed-orientation binary)"); continue
+            # (matrix_binary with operands of different orientation used to be kept out of the main stream: it crashed
+            #  until the repair 322c8c6f of matrix_binary::plus_assign_to; it is part of the stream now)
             try:
                 s2, _ = exec_stmt(s, st)
             except Reject:
